@@ -123,6 +123,26 @@ example : exUnrel.mem = unrelSmallSum exUnrel.queue ∧
     payloadSum (exUnrel.getPackets 0 1500).2.1 = 1307 ∧ (exUnrel.getPackets 0 1500).2.2.2 = 193 ∧
     (exUnrel.getPackets 0 1500).1.queue = [] ∧ (exUnrel.getPackets 0 1500).1.mem = 0 := by decide +kernel
 
+/-- a connection built by running the model (reliable channel 0: 5 and 2500 bytes; unreliable channel 1: 7, 1300 and
+    3000 bytes; budget 4000): the hypothesis of `connection_budget` holds, and the flush carries 3812 ≤ 4000 payload
+    bytes — the reliable channel, served first, takes 2505; the unreliable one gets the remaining 1495, sends 7 + 1300
+    and drops the 3000-byte message -/
+def exConn : Conn :=
+  let c := (Conn.fromChannels 4000 [⟨0, .ordered, 100000, 300⟩, ⟨1, .unreliable, 100000, 0⟩] []).setConnected
+  let c := okOr c (c.sendMessage 0 (mk 5 1))
+  let c := okOr c (c.sendMessage 0 (mk 2500 2))
+  let c := okOr c (c.sendMessage 1 (mk 7 3))
+  let c := okOr c (c.sendMessage 1 (mk 1300 4))
+  okOr c (c.sendMessage 1 (mk 3000 5))
+
+set_option maxRecDepth 100000 in
+example : RelMapFit exConn.sendRel := (RelMapOKd.ok (by decide +kernel)).fit
+
+set_option maxRecDepth 100000 in
+example : (match exConn.flushPackets with
+    | .ok pk => (pk.map payloadBytes, pk.map Packet.sequence)
+    | _ => ([], [])) = ([1200, 1200, 100, 5, 1200, 100, 7], [0, 1, 2, 3, 4, 5, 6]) := by decide +kernel
+
 /-- `SlicedFit` cannot be dropped from `reliable_budget`: in a state no execution of `send_message` produces (one
     slice announced for a 3000-byte message) the model emits a 3000-byte "slice" against a budget of 1200 — in Rust
     `available_bytes -= payload.len()` would underflow there. -/
